@@ -313,7 +313,7 @@ func c14Cases(tier string) []c14Case {
 		}
 		srcV = append(srcV, mt)
 	}
-	srcArgs := []string{"/", "a", "a/f", "b", "*", "a/*", "l", "l/f", "c", "?", "a/..", "c/../a/..", "a/../../b", "l/a/f", "l/a", "l/a/*", "m?", "m?/sub", "*/sub", "..", "../.", "a/../..", "../b"}
+	srcArgs := []string{"/", "a", "a/f", "b", "*", "a/*", "l", "l/f", "c", "?", "a/..", "c/../a/..", "a/../../b", "l/a/f", "l/a", "l/a/*", "m?", "m?/sub", "*/sub", "..", "../.", "a/../..", "../b", "l/", "a/l/", "c/../l/", "a/"}
 	dstArgs := []string{"/", "a", "a/f", "x", "new", "l", "l/sub", "x/", "l/", "l/new/sub", "l/new/sub/"}
 	var pairs [][2]fsmodel.Tree
 	for _, s := range srcV {
@@ -376,6 +376,19 @@ func c14Cases(tier string) []c14Case {
 			for _, da := range []string{"/", "a", "a/f", "b"} {
 				for o := 0; o < 16; o++ {
 					out = append(out, c14Case{Src: srcBase, Dst: dstBase, SrcArg: sa, DstArg: da, Follow: o&1 != 0, Repl: o&2 != 0, DirC: o&4 != 0, Stamp: o&8 != 0, Wild: hasWild(sa), DstHL: hl})
+				}
+			}
+		}
+	}
+	// ... at the path of the SECOND entry of a directory the copy has just created (the first one is already there)
+	{
+		two := append(srcBase.Clone(), fsmodel.Node{Path: "a/h", Kind: fsmodel.File, Perm: 0644, Mtime: fsmodel.T0 + 4, Data: []byte("SRC:a/h")}, fsmodel.Node{Path: "c/k", Kind: fsmodel.File, Perm: 0644, Mtime: fsmodel.T0 + 4, Data: []byte("SRC:c/k")})
+		two.Sort()
+		for _, da := range []string{"/", "x", "new", "new/sub"} {
+			for _, pl := range []string{"a/h", "c/k", "c/g"} {
+				for o := 0; o < 8; o++ {
+					out = append(out, c14Case{Src: two, Dst: dstBase, SrcArg: "/", DstArg: da, DirC: true, Follow: o&1 != 0, Repl: o&2 != 0, Stamp: o&4 != 0, Plant: filepath.Join(da, pl)},
+						c14Case{Src: two, Dst: dstBase, SrcArg: "c", DstArg: da, Follow: o&1 != 0, Repl: o&2 != 0, Stamp: o&4 != 0, Plant: filepath.Join(da, "c", filepath.Base(pl))})
 				}
 			}
 		}
